@@ -431,6 +431,15 @@ def run(ctx, res):
     check_table(res)
     cases = corpus() + gen_histories(ctx.rng, ctx.n(24, 96), rounds=ctx.n(2, 12))
     check_cases(cases, res)
+    # whole links with float and integer payloads, direct / through adapters incl. regridding (engines/unitlink.py)
+    from . import unitlink
+    for _ in range(ctx.n(80, 1000)):
+        c = unitlink.gen(ctx.rng)
+        res.case(c, True)
+        res.count("part", "unit-link/" + c["via"])
+        o = unitlink.oracle(c, unitlink.run(c))
+        if o:
+            res.fail(c, o[0], o[1])
     # the package's merger adds values published in different units of one dimension (C20's harness, mixed units only)
     from . import c20
     for _ in range(ctx.n(40, 600)):
@@ -445,7 +454,14 @@ def run(ctx, res):
 
 
 def search(ctx, res, divergences, broken):
-    from . import c20
+    from . import c20, unitlink
+    for _ in range(400):
+        c = unitlink.gen(ctx.rng)
+        res.case(c, True)
+        o = unitlink.oracle(c, unitlink.run(c))
+        if o:
+            res.fail(c, o[0], o[1])
+            return
     for _ in range(200):
         c = c20.gen_ws(ctx.rng)
         if len({p["units"] for p in c["pairs"]}) < 2:
@@ -475,7 +491,7 @@ def _fails(case):
 def shrink(ctx, f):
     """cut the history after the failing operation, then drop operations while the oracle keeps failing"""
     case = f["case"]
-    if case.get("part") == "ws":
+    if case.get("part") in ("ws", "unitlink"):
         return f
     obs = f["observed"]
     ops = list(case["ops"])
@@ -518,6 +534,10 @@ def replay(ctx, rp):
     if case.get("part") == "ws":
         from . import c20
         o = c20.oracle_ws(case, c20.run_ws(case))
+        return {"fails": bool(o), "oracle": o}
+    if case.get("part") == "unitlink":
+        from . import unitlink
+        o = unitlink.oracle(case, unitlink.run(case))
         return {"fails": bool(o), "oracle": o}
     case = {"ops": case["ops"]}
     impl = run_impl(case)
